@@ -59,7 +59,8 @@ type mPage struct {
 	seq  int // global append order (identity of the page within the history)
 	attr int
 	api  byte
-	cbs  []int // callbacks whose "next page" this is
+	cbs  []int  // callbacks whose "next page" this is
+	mb   string // multipage family: name of the MediaBox the page was given (overrides attr.MB)
 }
 
 type mItem struct {
